@@ -94,7 +94,7 @@ func refPublic(seedIdx int) []byte {
 
 func jobC02(c *rt.Ctx) {
 	c.Require("pure", "ctx", "ph", "style/hash0", "style/sha512", "style/options", "style/helper", "keygen")
-	nseeds := 64
+	nseeds := 256
 	if c.Thorough() {
 		nseeds = 4096
 	}
@@ -141,15 +141,15 @@ func jobC02(c *rt.Ctx) {
 			cases = append(cases, cs{i, li, 0})
 		}
 	}
-	vseeds := 4
+	vseeds := 6
 	if c.Thorough() {
-		vseeds = 8
+		vseeds = 12
 	}
 	for i := 0; i < vseeds; i++ {
 		for li := range c02Lens {
 			for vi := 1; vi < len(vars); vi++ {
-				if c.Thorough() && vi%8 != (li+i)%8 && li > 3 {
-					continue // thorough: every context length with every seed at 4 lengths, 1/8 of the rest
+				if c.Thorough() && vi%4 != (li+i)%4 && li > 5 {
+					continue // thorough: every context length with every seed at 6 lengths, 1/4 of the rest
 				}
 				cases = append(cases, cs{i * 7 % nseeds, li, vi})
 			}
